@@ -8,7 +8,7 @@ from typing import Dict, List, Optional, Set, Tuple
 from ..core import astutil as A
 from ..core.index import AnalysisError, FuncInfo, external_init_signature
 from ..selftest import M
-from .common import T, attr_stores, calls_named, conds, every_origin, facts, need, subscript_stores, where
+from .common import may_conds, T, attr_stores, calls_named, conds, every_origin, facts, need, subscript_stores, where
 from .rounding import check_helper, is_otround
 
 MARK = "ufo2ft.featureWriters.markFeatureWriter"
@@ -28,6 +28,7 @@ def run(prog, chk):
         "parseAnchorName: mark-ness is 'starts with the mark prefix', the key has the prefix stripped, numbered mark anchors raise (R06.8)",
         "no anchor coordinate is dropped or defaulted by a truthiness test: 0 is a legitimate coordinate (R06.9)",
         "every glyph is a candidate base of some mark feature: the abvm / not-abvm sets cover the glyph set on every path, mark/mkmk use the second and abvm/blwm the first (R06.10)",
+        "markGlyphNames holds exactly the glyphs that got a mark class (same guards as the class insertion) (R06.11)",
     ]
     chk.not_decided += ["the offsets a shaper computes", "lookup grouping / graph colouring result", "which script a glyph is routed to (abvm / blwm classification data)", "contextual anchors' generated rules"]
     r061(prog, chk)
@@ -39,6 +40,7 @@ def run(prog, chk):
     r067(prog, chk)
     r068(prog, chk)
     r0610(prog, chk)
+    r0611(prog, chk)
     from .rounding import check_no_truthiness_on_coordinates
     n = check_no_truthiness_on_coordinates(prog, chk, "R06.9", [MARK, "ufo2ft.featureWriters.baseFeatureWriter"])
     need(n >= 40, "truthiness scan found too few tests")
@@ -498,7 +500,42 @@ def r0610(prog, chk):
     chk.minimum("R06.10", 5)
 
 
+# ----------------------------------------------------------------------------- R06.11
+def r0611(prog, chk):
+    """markGlyphNames (what the attachment builders use to tell marks from bases) holds
+    exactly the glyphs that were given a mark class: the add is subject to every
+    guard the class-group insertion is subject to."""
+    ix = prog.ix
+    mw = ix.get_class(f"{MARK}.MarkFeatureWriter")
+    f = mw.methods["_groupMarkGlyphsByAnchor"]
+    stc = [(s, t, v) for s, t, v in attr_stores(f, "markGlyphNames")]
+    need(len(stc) == 1 and isinstance(stc[0][2], ast.Name), f"cannot interpret {f.short}: markGlyphNames")
+    setname = stc[0][2].id
+    adds = [c for c in calls_named(f, "add") if T(c.func.value) == setname]
+    ins = [(s, t, v) for s, t, v in subscript_stores(f) if isinstance(t.value, ast.Name) and any(isinstance(a, ast.For) for a in ix.ancestors(s))]
+    need(len(adds) == 1 and len(ins) == 1, f"cannot interpret {f.short}: add / group insertion")
+    outer = [a for a in ix.ancestors(adds[0]) if isinstance(a, ast.For)][-1]
+    gname = A.target_names(outer.target)[0]
+
+    def guards(node):
+        out = set()
+        for c_ in may_conds(prog, f, node):
+            if c_.kind in ("if", "boolop") and any(a is outer for a in ix.ancestors(c_.test)):
+                # conditions on the glyph (not on the individual anchor of the inner loop)
+                out.add((A.keytext(f.node, c_.test), c_.polarity))
+        return out
+    ga, gi = guards(adds[0]), guards(ins[0][0])
+    missing = gi - ga
+    ok = T(adds[0].args[0]) == gname and T(ins[0][1].slice) == gname and not missing
+    chk.ob("R06.11", f"{f.short}|a glyph is recorded as a mark glyph under the same conditions under which it gets a mark class", ok, where(f, adds[0]), detail=f"{len(gi)} guard(s) shared",
+           message=f"{f.short}: a glyph is put into markGlyphNames although it may be filtered out of the mark classes afterwards ({sorted(missing)}): the attachment builders then treat a "
+                   f"base / ligature glyph as a mark and its own anchors get no attachment")
+    chk.minimum("R06.11", 1)
+
+
 MUTANTS = [
+    M("glyphs recorded as marks before the GDEF mark filter (seeded C06c)", "ufo2ft/featureWriters/markFeatureWriter.py", "MarkFeatureWriter._groupMarkGlyphsByAnchor",
+      "if gdefMarks is not None and glyphName not in gdefMarks:\n    continue", "markGlyphNames.add(glyphName)\nif gdefMarks is not None and glyphName not in gdefMarks:\n    continue", rule="R06.11"),
     M("class name not carried over after a clash (seeded C06b)", "ufo2ft/featureWriters/markFeatureWriter.py", "MarkFeatureWriter._makeMarkClassDefinitions",
       "className = mcd.markClass.name", "pass", rule="R06.4"),
     M("glyphs of undeclared abvm scripts fall between the two sets (seeded C06a)", "ufo2ft/featureWriters/markFeatureWriter.py", "MarkFeatureWriter._getAbvmGlyphs",
